@@ -4,7 +4,7 @@ from hypothesis import strategies as st
 
 from pbt import ir, jets, render, strategies as S
 from pbt.harness import PropertyViolation, Inconclusive
-from pbt.util import arr, cmp, pretty, call
+from pbt.util import arr, cmp, pretty, call, conv_fn
 
 ID = "C03"
 TITLE = "Jacobian, gradient and higher derivative functions are the true derivatives"
@@ -33,7 +33,7 @@ def strategy(tier):
     def case(draw):
         m = draw(S.general_model(max_events=4))
         pts = [draw(S.point(m)) for _ in range(2)]
-        return {"model": m, "points": pts}
+        return {"model": m, "points": pts, "conv": draw(st.sampled_from(["state-first", "state-first", "time-first"]))}
     return case()
 
 
@@ -48,17 +48,19 @@ def oracle(case, rec):
     except Exception as e:
         raise PropertyViolation("C03/construct/" + type(e).__name__, "constructing the model raised %r" % (e,), case)
     rec.label("nS:%d" % n_s, "nP:%d" % n_p, "nE:%d" % n_e)
+    conv = case.get("conv", "state-first")      # jacobian(x,t) or the time-first wrapper jacobian_T(t,x) handed to integrators
+    rec.label("convention:" + conv)
     for pt in case["points"]:
         d = ir.derivatives(m, pt["x"], pt["t"], pt["theta"], order)
         if not all(np.isfinite(v).all() for v in d.values()):
             raise Inconclusive("reference not finite")
         model.parameters = pt["theta"]
         x, t = pt["x"], pt["t"]
-        J = arr(call("C03/jacobian", case, model.jacobian, x, t), (n_s, n_s), "jacobian(x,t)", "C03/jacobian", case)
+        J = arr(call("C03/jacobian", case, conv_fn(model, "jacobian", conv), x, t), (n_s, n_s), "jacobian(x,t)", "C03/jacobian", case)
         cmp(J, d["J"], "jacobian(x,t)", "C03/jacobian", case, 1e-8)
-        G = arr(call("C03/grad", case, model.grad, x, t), (n_s, n_p), "grad(x,t)", "C03/grad", case)
+        G = arr(call("C03/grad", case, conv_fn(model, "grad", conv), x, t), (n_s, n_p), "grad(x,t)", "C03/grad", case)
         cmp(G, d["G"], "grad(x,t)", "C03/grad", case, 1e-8)
-        DJ = arr(call("C03/diff_jacobian", case, model.diff_jacobian, x, t), (n_s * n_s, n_s), "diff_jacobian(x,t)",
+        DJ = arr(call("C03/diff_jacobian", case, conv_fn(model, "diff_jacobian", conv), x, t), (n_s * n_s, n_s), "diff_jacobian(x,t)",
                  "C03/diff_jacobian", case)
         cmp(DJ, d["Hxx"].reshape(n_s * n_s, n_s), "diff_jacobian(x,t)", "C03/diff_jacobian", case, 1e-8)
         GJ = arr(call("C03/grad_jacobian", case, model.grad_jacobian, x, t), (n_s * n_p, n_s), "grad_jacobian(x,t)",
